@@ -370,6 +370,22 @@ fn main() {
             }
             if rep.unlisted.is_empty() { 0 } else { 1 }
         }
+        Some("plans") => {
+            // the as-built scenario catalogue (PLANS.md is generated from this)
+            println!("# Scenario catalogue as built (generated by `atsmc plans`)\n");
+            println!("Name key: B<asks><bids> book shape / precision-increment menu / fee rates / role aliasing / marker spec over (base, conv, q1[, conv2, q2]); |L| life-cycle requests, |P| probe requests executed from every reachable state.\n");
+            for prop in BOOK_PROPS {
+                for (tier, tn) in [(Tier::Quick, "quick"), (Tier::Thorough, "thorough")] {
+                    let pl = catalogue::plan(prop, tier);
+                    println!("## {prop} {tn} — hooks {:?}\n", pl.hooks);
+                    for s in &pl.scenarios {
+                        println!("- `{}`: |L| = {}, |P| = {}{}", s.name, s.l.len(), s.p.len(), if s.seed.is_empty() { "" } else { ", seeded legacy orders" });
+                    }
+                    println!();
+                }
+            }
+            0
+        }
         Some("selftest") => selftest::run(),
         Some("replay") => replay(args.get(2).map(|s| s.as_str()).unwrap_or("")),
         _ => {
